@@ -100,6 +100,16 @@ def indexFrom : Nat → List Goal → List (Goal × Nat)
 
 def indexed (gs : List Goal) : List (Goal × Nat) := indexFrom 0 gs
 
+/-- the list `objectives` built by `_gp_goal_constraints`: one objective function per non-critical goal -/
+def objectiveFns (gs : List Goal) : List (Goal × Nat) := (indexed gs).filter fun gj => !gj.1.critical
+
+/-- `_gp_objective` / `_gp_path_objective` in the shape of the source, over an abstract list of objective
+    functions `objs` with evaluation `ev` (`o(self, ensemble_member)`) -/
+def gpObjectiveCode {α : Type} (sbs : Bool) (ev : α → List Rat) (objs : List α) (nObj : Nat) : Rat :=
+  if 0 < objs.length then
+    (if sbs then (objs.flatMap ev).sum / (nObj : Rat) else (objs.flatMap ev).sum)
+  else 0
+
 /-- `ca.vertcat(*[o(self, m) for o in objectives])` -/
 def vertcat (sbs isPath : Bool) (T : Nat) (val : Val) (m i : Nat) (gs : List Goal) : List Rat :=
   (indexed gs).flatMap (objVec sbs isPath T val m i)
